@@ -5,7 +5,7 @@
 (* of the octahedral group (signed permutation matrices) keep every        *)
 (* rotation, covariance transport and local orbital frame exactly integer. *)
 (***************************************************************************)
-EXTENDS Integers, Sequences
+EXTENDS Integers, Sequences, TLC
 
 Dim(m) == Len(m)
 RECURSIVE SumTo(_, _)
@@ -13,25 +13,31 @@ SumTo(f, n) == IF n = 0 THEN 0 ELSE f[n] + SumTo(f, n - 1)
 Dot(u, v) == SumTo([i \in 1..Len(u) |-> u[i] * v[i]], Len(u))
 Row(m, i) == m[i]
 Colm(m, j) == [i \in 1..Len(m) |-> m[i][j]]
-MatMul(a, b) == [i \in 1..Len(a) |-> [j \in 1..Len(b[1]) |-> Dot(Row(a, i), Colm(b, j))]]
-MatVec(a, v) == [i \in 1..Len(a) |-> Dot(Row(a, i), v)]
-Transpose(a) == [j \in 1..Len(a[1]) |-> [i \in 1..Len(a) |-> a[i][j]]]
+\* arguments are forced with TLCEval: TLC would otherwise re-evaluate a lazily passed argument at every use
+Transpose(a0) == LET a == TLCEval(a0) IN [j \in 1..Len(a[1]) |-> [i \in 1..Len(a) |-> a[i][j]]]
+MatMul(a0, b0) ==
+  LET a == TLCEval(a0)
+      bt == TLCEval(Transpose(b0))
+  IN [i \in 1..Len(a) |-> [j \in 1..Len(bt) |-> Dot(a[i], bt[j])]]
+MatVec(a0, v0) == LET a == TLCEval(a0) v == TLCEval(v0) IN [i \in 1..Len(a) |-> Dot(a[i], v)]
 Ident(n) == [i \in 1..n |-> [j \in 1..n |-> IF i = j THEN 1 ELSE 0]]
 Zero(n, m) == [i \in 1..n |-> [j \in 1..m |-> 0]]
-VecAdd(u, v) == [i \in 1..Len(u) |-> u[i] + v[i]]
-VecSub(u, v) == [i \in 1..Len(u) |-> u[i] - v[i]]
+VecAdd(u0, v0) == LET u == TLCEval(u0) v == TLCEval(v0) IN [i \in 1..Len(u) |-> u[i] + v[i]]
+VecSub(u0, v0) == LET u == TLCEval(u0) v == TLCEval(v0) IN [i \in 1..Len(u) |-> u[i] - v[i]]
 VecNeg(u) == [i \in 1..Len(u) |-> -u[i]]
 Scale(k, u) == [i \in 1..Len(u) |-> k * u[i]]
 Cross(u, v) == <<u[2] * v[3] - u[3] * v[2], u[3] * v[1] - u[1] * v[3], u[1] * v[2] - u[2] * v[1]>>
 
 \* 6x6 block-diagonal expansion of a 3x3 rotation (no rate)
-Block6(r) == [i \in 1..6 |-> [j \in 1..6 |->
+Block6(r0) == LET r == TLCEval(r0) IN [i \in 1..6 |-> [j \in 1..6 |->
                 IF i <= 3 /\ j <= 3 THEN r[i][j] ELSE IF i > 3 /\ j > 3 THEN r[i - 3][j - 3] ELSE 0]]
 \* cross-product matrix [w]x
 Skew(w) == << <<0, -w[3], w[2]>>, <<w[3], 0, -w[1]>>, <<-w[2], w[1], 0>> >>
 \* beyond.utils.matrix.expand(m, rate): lower-left block = -[rate]x m
-Expand6(r, rate) ==
-  LET ll == MatMul([i \in 1..3 |-> [j \in 1..3 |-> -Skew(rate)[i][j]]], r)
+Expand6(r0, rate) ==
+  LET r == TLCEval(r0)
+      sk == TLCEval(Skew(rate))
+      ll == TLCEval(MatMul([i \in 1..3 |-> [j \in 1..3 |-> -sk[i][j]]], r))
   IN [i \in 1..6 |-> [j \in 1..6 |->
         IF i <= 3 /\ j <= 3 THEN r[i][j]
         ELSE IF i > 3 /\ j > 3 THEN r[i - 3][j - 3]
